@@ -3,6 +3,7 @@
 //                                          util::scoped_fd on fd 0) run in a forked child whose read/write/fsync/close
 //                                          are answered by the scripted outcomes: o:<ret>:<hex> | e:<errno>
 //                                          prints "<status> <event>;..." with event = op fd req ret errno datahex
+//   ROE|ROT <amount> | <outcome>...        util::ReadOrEOF / util::ReadOrThrow on fd 0 under scripted outcomes; prints status, events, R:<hex of the result>
 //   WAIT exit:<c> | sig:<s>                forks a child ending that way, prints the value of the real preprocess::Wait
 //   CONST                                  errno / signal numbers the code was compiled with
 #include "hx_common.hh"
@@ -143,6 +144,55 @@ void RunTool(const std::vector<std::string> &t) {
   std::cout << StatusString(st) << ' ' << trace << "\n";
 }
 
+// ROE / ROT <amount> | outcomes : util::ReadOrEOF / util::ReadOrThrow on fd 0 under the scripted oracle
+void RunReadLoop(const std::vector<std::string> &t) {
+  bool eof_ok = t[0] == "ROE";
+  size_t amount = std::strtoul(t[1].c_str(), NULL, 10);
+  g_oracle.clear();
+  g_next = 0;
+  for (size_t i = 3; i < t.size(); ++i) {
+    Outcome o; o.err = 0; o.n = 0; o.ok = t[i][0] == 'o';
+    if (o.ok) {
+      size_t c = t[i].find(':', 2);
+      o.n = std::strtol(t[i].substr(2, c - 2).c_str(), NULL, 10);
+      o.data = hx::unhex(t[i].substr(c + 1));
+    } else {
+      o.err = std::atoi(t[i].c_str() + 2);
+    }
+    g_oracle.push_back(o);
+  }
+  int p[2];
+  if (pipe(p)) { std::cout << "pipe-failed\n"; return; }
+  std::cout.flush();
+  pid_t pid = fork();
+  if (pid == 0) {
+    syscall(SYS_close, p[0]);
+    int dn = open("/dev/null", O_WRONLY);
+    dup2(dn, 2);
+    struct rlimit rl = {0, 0};
+    setrlimit(RLIMIT_CORE, &rl);
+    g_trace_fd = p[1];
+    g_active = true;
+    std::vector<char> buf(amount + 1);
+    std::size_t got = amount;
+    if (eof_ok) got = util::ReadOrEOF(0, &buf[0], amount);
+    else util::ReadOrThrow(0, &buf[0], amount);
+    g_active = false;
+    std::string tail = " R:" + hx::hex(&buf[0], got);
+    syscall(SYS_write, p[1], tail.data(), tail.size());
+    _exit(0);
+  }
+  syscall(SYS_close, p[1]);
+  std::string trace;
+  char buf[4096];
+  ssize_t n;
+  while ((n = syscall(SYS_read, p[0], buf, sizeof buf)) > 0) trace.append(buf, n);
+  syscall(SYS_close, p[0]);
+  int st = 0;
+  waitpid(pid, &st, 0);
+  std::cout << StatusString(st) << ' ' << trace << "\n";
+}
+
 void RunWait(const std::string &term) {
   std::cout.flush();
   pid_t pid = fork();
@@ -165,6 +215,7 @@ int main() {
     std::vector<std::string> t = hx::split_ws(line);
     if (t.empty()) { std::cout << "?\n"; continue; }
     if (t[0] == "T" && t.size() >= 4) RunTool(t);
+    else if ((t[0] == "ROE" || t[0] == "ROT") && t.size() >= 3) RunReadLoop(t);
     else if (t[0] == "WAIT" && t.size() == 2) RunWait(t[1]);
     else if (t[0] == "CONST") {
       std::cout << "EINTR=" << EINTR << " EIO=" << EIO << " EAGAIN=" << EAGAIN << " EISDIR=" << EISDIR << " EINVAL=" << EINVAL
